@@ -14,6 +14,9 @@ CONSTANTS
   Window = 1
   Retention = 1
   BurstSizes = {3}
+  PskIds = {}
+  PskValues = {"none"}
+  Deviations = {"F12"}
   MaxApps = 1
   Depth = 22
   WProgress = 60
